@@ -11,8 +11,22 @@ CHECKS = PKG + '._checks'
 
 
 def scope_gate(prog):
-    """The Enforcer method enforce() calls with do_raise: the scope gate."""
+    """The scope gate: the Enforcer method in the region of enforce() that
+    raises InvalidScope; failing that, the one enforce() calls with
+    do_raise."""
     enf = prog.func(POLICY + '.Enforcer.enforce')
+    region = prog.region(enf, stop=(POLICY + '.Enforcer.load_rules',))
+    raisers = {}
+    for q, g in region.items():
+        if g is enf or g.cls is None or g.cls.qual != POLICY + '.Enforcer':
+            continue
+        for n in ast.walk(g.node):
+            if isinstance(n, ast.Raise) and n.exc is not None:
+                c = n.exc.func if isinstance(n.exc, ast.Call) else n.exc
+                if prog.resolve(g.module, c) == POLICY + '.InvalidScope':
+                    raisers[g.qual] = g
+    if len(raisers) == 1:
+        return list(raisers.values())[0]
     hits = {}
     for call, g in prog.callees(enf):
         if not isinstance(call, ast.Call) or g.cls is None or \
@@ -26,8 +40,10 @@ def scope_gate(prog):
         if passes:
             hits[g.qual] = g
     if len(hits) != 1:
-        raise AnalysisError('expected one scope gate called from enforce '
-                            'with do_raise, found %s' % sorted(hits))
+        raise AnalysisError('expected one scope gate (the method raising '
+                            'InvalidScope, or the one enforce calls with '
+                            'do_raise), found %s' % sorted(
+                                set(hits) | set(raisers)))
     return list(hits.values())[0]
 
 
